@@ -1,24 +1,11 @@
-(* Constants of stun-agent (and the nonce cookie of stun-rs) used by the agent-side models equal the ones the translator
-   (tools/gen_constants.py) extracted from the CURRENT source of /repo into Generated/Constants.v. *)
+(* The client defaults (RTO, Rm, Rc: the documented schedule 0, 500, ..., 39500 ms; outstanding limit; granularity) equal the
+   ones extracted from the CURRENT source of /repo. Used by C06, C12, C15. The nonce-cookie and estimator constants are
+   in ConstantsAgentNonce.v / ConstantsAgentRtt.v so that a constant only concerns the properties that speak about it. *)
 From Coq Require Import List NArith ZArith Bool.
 Import ListNotations.
 From Rustun Require Import Generated.Constants Base.Tlv Agent.F32 Agent.Rto Agent.Model Agent.RttExact Agent.AbsGlue.
 Open Scope N_scope.
 
-(* ---- nonce cookie *)
-Lemma nonce_cookie_constants : gen_NONCE_COOKIE_HEADER = nonce_cookie_header
-  /\ gen_FEATURE_BIT_PASSWORD_ALGORITHMS = 31 /\ gen_FEATURE_BIT_USERNAME_ANONYMITY = 30.
-Proof. repeat split; reflexivity. Qed.
-
-(* ---- the estimator: ALPHA, BETA and K of rtt.rs as the f32 constants of the model, the staleness limit, the defaults *)
-Lemma estimator_constants :
-  rnd gen_RTT_ALPHA_NUM gen_RTT_ALPHA_DEN 0 = c_0125 /\ rnd (gen_RTT_ALPHA_DEN - gen_RTT_ALPHA_NUM) gen_RTT_ALPHA_DEN 0 = c_0875
-  /\ rnd gen_RTT_BETA_NUM gen_RTT_BETA_DEN 0 = c_025 /\ rnd (gen_RTT_BETA_DEN - gen_RTT_BETA_NUM) gen_RTT_BETA_DEN 0 = c_075
-  /\ of_nat_f32 gen_RTT_K = c_4.
-Proof. vm_compute. repeat split; reflexivity. Qed.
-Lemma staleness_limit : forall s l now, e_last s = Some l ->
-  est_send s now = {| e_calc := if gen_STALE_SECS * NANOS <? now - l then rtt_reset (e_calc s) else e_calc s; e_last := Some now |}.
-Proof. intros s l now H. unfold est_send. rewrite H. reflexivity. Qed.
 Lemma client_defaults : map (slot gen_DEFAULT_RTO_MS gen_DEFAULT_RM gen_DEFAULT_RC) [0;1;2;3;4;5;6;7] = [0;500;1500;3500;7500;15500;31500;39500]
   /\ gen_DEFAULT_MAX_TRANSACTIONS = 10 /\ gen_DEFAULT_GRANULARITY_MS = 1.
 Proof. repeat split; reflexivity. Qed.
